@@ -72,6 +72,18 @@ theorem check_fail_external (a : Inst) (p : Nat) (hp : p < 2 ^ 31) (he : a.exter
     omega
   simp [this, he]
 
+/-- a position inside the buffer needs exactly one growth quantum -/
+theorem growBytes_one (a : Inst) (p : Nat) (hinv : a.bufLen = (a.mem.length : Int)) (hpos : p ≤ a.mem.length)
+    (hc : (p : Int) + (c_BUFFER_TOLERANCE : Int) > a.bufLen) (hp : p < 2 ^ 31) : growBytes a p = 6000 := by
+  unfold growBytes
+  rw [toInt32_small hp, hinv]
+  rw [hinv] at hc
+  have h20 : (c_BUFFER_TOLERANCE : Int) = 20 := rfl
+  have h6 : c_MEM_BUFFER = 6000 := rfl
+  rw [h20] at hc ⊢
+  rw [h6]
+  omega
+
 /-- what `check_len_or_resize` guarantees when it succeeds (both kinds of instance), given
     that the position is inside the buffer: 20 bytes of room, same prefix, nothing else changed -/
 theorem check_post (a a' : Inst) (p : Nat) (hp : p < 2 ^ 31) (hinv : BufInv a)
@@ -89,12 +101,11 @@ theorem check_post (a a' : Inst) (p : Nat) (hp : p < 2 ^ 31) (hinv : BufInv a)
     · have he' : a.external = false := by simpa using he
       simp only [he', Bool.false_eq_true, if_false, Except.ok.injEq] at h
       subst h
+      have hg := growBytes_one a p hinv hpos hc hp
       refine ⟨?_, ?_, ?_, rfl, he'.symm, rfl, rfl, rfl, rfl, ?_⟩
-      · simp only [BufInv, List.length_append, List.length_replicate, hinv]
-        show (a.mem.length : Int) + ((6000 : Nat) : Int) = ((a.mem.length + 6000 : Nat) : Int)
+      · simp only [BufInv, List.length_append, List.length_replicate, hinv, hg]
         omega
-      · simp only [List.length_append, List.length_replicate]
-        show p + 20 ≤ a.mem.length + 6000
+      · simp only [List.length_append, List.length_replicate, hg]
         omega
       · simp
       · intro h; exact absurd h he
@@ -152,17 +163,21 @@ theorem write_frame (a : Inst) (p : Nat) (bs : Bytes) (hinv : BufInv a)
   exact ⟨by unfold BufInv at *; rw [hb, hl, hinv], ho, writeAt_inb_take a p bs hin p (Nat.le_refl _),
     by omega, fun _ => hl, he, hm, hc, hof, hop⟩
 
-theorem check_grow (a a' : Inst) (p : Nat) (h : checkLenOrResize a p = .ok a') :
-    a'.mem.length ≤ a.mem.length + 6000 := by
+theorem check_grow (a a' : Inst) (p : Nat) (hp : p < 2 ^ 31) (hinv : BufInv a) (hpos : p ≤ a.mem.length)
+    (h : checkLenOrResize a p = .ok a') : a'.mem.length ≤ a.mem.length + 6000 := by
   unfold checkLenOrResize at h
-  split at h
-  · split at h
+  rw [toInt32_small hp] at h
+  unfold BufInv at hinv
+  by_cases hc : ((p : Int) + (c_BUFFER_TOLERANCE : Int) > a.bufLen)
+  · simp only [hc, if_true] at h
+    split at h
     · cases h
     · injection h with h
       subst h
-      simp only [List.length_append, List.length_replicate]
+      simp only [List.length_append, List.length_replicate, growBytes_one a p hinv hpos hc hp]
       exact Nat.le_refl _
-  · injection h with h
+  · simp only [hc, if_false] at h
+    injection h with h
     subst h
     omega
 
@@ -175,7 +190,7 @@ theorem check_frame (a a' : Inst) (p : Nat) (hp : p < 2 ^ 31) (hinv : BufInv a)
     have := congrArg List.length ht
     simp only [List.length_take] at this
     omega
-  have hgrow : a'.mem.length ≤ a.mem.length + 6000 := check_grow a a' p h
+  have hgrow : a'.mem.length ≤ a.mem.length + 6000 := check_grow a a' p hp hinv hpos h
   refine ⟨⟨hi, ho, ?_, hle, fun hx => by rw [hext hx], he, hm, hc, hof, hop⟩, hr, hgrow⟩
   have := congrArg (List.take p) ht
   rw [List.take_take, Nat.min_eq_left hpos] at this
